@@ -133,23 +133,33 @@ Example reregister :
   option_map cs_req (project 1 (run [ERequest 1 [1]; ERequest 3 [3]; ERequest 1 [2]] (init Server))) = Some (Some [2]).
 Proof. vm_compute. split; reflexivity. Qed.
 
-(* read_isolation_partial is not vacuous: a read carrying three calls and tolerated frames, with a
-   RST_STREAM for call 3 in the middle, never raises, with or without that RST_STREAM *)
-Example read_partial_hyps :
+(* read_isolation is not vacuous: a read carrying three calls and tolerated frames, with a RST_STREAM for
+   call 3 in the middle, never raises, with or without that RST_STREAM *)
+Example read_isolation_hyps :
   let s0 := run [ARegister 1; ARegister 3; ARegister 5] (init Client) in
   let es1 := [EResponse 1 [1]; EUnknown; EData 3 [3] 1] in
   let es2 := [EData 1 [1;1] 2; EPing; EResponse 5 [5]; EEnded 1] in
   no_raise (es1 ++ EReset 3 true 8 :: es2) s0 = true /\ no_raise (es1 ++ es2) s0 = true /\
-  forallb (fun e => negb (is_request e)) (es1 ++ EReset 3 true 8 :: es2) = true /\
   option_map cs_queue (project 1 (fst (fst (run_batch (es1 ++ EReset 3 true 8 :: es2) s0 [])))) =
     Some [QData [1;1] 2; QEof].
 Proof. vm_compute. repeat split; reflexivity. Qed.
 
-(* D21 as the model shows it: the read [HEADERS(even stream 2); HEADERS(call 1)] leaves call 1 without
-   its headers, and stream 2 stays in the registry *)
-Example d21_witness :
+(* the server form: two handlers in one read, one reset once; the discipline holds and is needed *)
+Example read_isolation_server_hyps :
+  let s0 := run [ERequest 1 [1]; ERequest 3 [3]] (init Server) in
+  let es := [EData 1 [1] 1; EReset 3 true 8; EData 1 [2] 1; EEnded 1] in
+  c_side (st_conn s0) = Server /\
+  forallb (fun x => negb (is_register x)) es = true /\ reset_ids es = [3] /\
+  option_map cs_in_tasks (project 1 s0) = Some true /\ option_map cs_in_tasks (project 3 s0) = Some true /\
+  no_raise es s0 = true /\ no_raise (es ++ [EReset 3 true 8]) s0 = false.
+Proof. vm_compute. repeat split; reflexivity. Qed.
+
+(* D21 repaired, as the model shows it: the read [HEADERS(even stream 2); HEADERS(call 1)] refuses and
+   releases stream 2 at once, raises nothing, and call 1 gets its headers; an older call that happened to
+   have that id would be overwritten and released (the id spaces are disjoint, so it cannot) *)
+Example d21_repaired :
   let s0 := run [ARegister 1] (init Client) in
   let r := run_batch [ERequest 2 []; EResponse 1 [7]] s0 [] in
-  snd r = true /\ option_map cs_headers (project 1 (fst (fst r))) = Some None /\
-  map fst (st_reg (fst (fst r))) = [1; 2].
+  snd r = false /\ option_map cs_headers (project 1 (fst (fst r))) = Some (Some [7]) /\
+  map fst (st_reg (fst (fst r))) = [1] /\ c_slot_wake (st_conn (fst (fst r))) = true.
 Proof. vm_compute. repeat split; reflexivity. Qed.
